@@ -32,12 +32,10 @@ THEOREMS = [
     'SF.C10.equals_symm', 'SF.C10.equals_symm_series', 'SF.C10.equals_symm_axis', 'SF.C10.equals_symm_bus',
     'SF.C10.equals_trans', 'SF.C10.equals_trans_series', 'SF.C10.equals_trans_axis', 'SF.C10.equals_trans_bus',
     'SF.C10.layout_irrelevant_equals', 'SF.C10.layout_irrelevant_equals_frame', 'SF.C10.values_coercion_counterexample',
-    'SF.C10.he_contract', 'SF.C10.he_contract_series', 'SF.C10.he_hash_ok_iff_flat', 'SF.C10.he_contract_partial',
-    'SF.C10.he_hash_hierarchy_counterexample',
+    'SF.C10.he_contract', 'SF.C10.he_contract_series',
+    'SF.C10.he_hash_pinned_ok_iff_flat', 'SF.C10.he_hash_hierarchy_counterexample',   # historical: the pinned hash, repaired in 7f42cd3
 ]
 PARTIAL = [
-    'SF.C10.he_contract_partial: full hash contract (a == b -> both hashes succeed and agree) for flat axes only; '
-    'with an IndexHierarchy axis hash() raises (he_hash_hierarchy_counterexample, finding F9-he-hash-hierarchy)',
     'SF.C10.equals_refl: content-level reflexivity needs skipna=True (equals_refl_skipna_false_counterexample); '
     'the real a.equals(a, skipna=False) is True only through the id() shortcut, which the model does not contain',
     'SF.C10.layout_irrelevant_equals: assumes `.values` keeps the cells; with an object-resolved `.values` NaT becomes None '
@@ -49,7 +47,7 @@ CORR_ONLY = ['NumPy == / isna on one array (parameters veq / Cell.na of the mode
 RULE = ('pairs (and triples) of Index / IndexHierarchy / Series / Frame / Bus specs where the second is a one-point mutation '
         'of the first (cell, cell->NaN on one/both sides, label, label order, dtype with equal values, 1 vs 1.0 vs True, name, '
         'axis name, class, block layout, shape), each under all 16 option sets in both directions; HE pairs additionally '
-        'through ==, !=, hash, set and dict; thorough: all 256x256 pairs of 2x2 frames over {0, 1, NaN, None}; '
+        'through ==, !=, hash, set and dict; thorough: all 256x256 pairs of 2x2 frames over {0, 1, NaN, None}; zero-column frames and HE containers with hierarchical axes included; '
         'non-trivial = the container is non-empty; distinct = distinct case JSON')
 TRUSTED = ['extraction of labels / column values / dtypes / names through the public API (reference side)',
            'reading TypeBlocks._blocks and IndexHierarchy._levels to feed the model with the real structure']
@@ -358,8 +356,6 @@ SERIES_MUTS = ['none', 'cell', 'cell', 'cell_na', 'cell_na', 'eqval', 'dtype', '
 def rand_frame(rng, max_rows=3, max_cols=4, he=False, min_rows=0, min_cols=0, name=None):
     n = rng.randint(min_rows, max_rows)
     m = rng.randint(min_cols, max_cols)
-    if m == 0 and rng.random() < 0.7:      # zero-column frames are a known defect: keep them rare
-        m = rng.randint(max(1, min_cols), max_cols)
     dts = []
     for _ in range(m):
         dts.append(dts[-1] if dts and rng.random() < 0.5 else rng.choice(V_DTYPES))
@@ -784,6 +780,16 @@ def eq_atom(v):
 
 
 
+def atom(s):
+    """any string as ONE s-expression atom (quoted, JSON escapes)"""
+    import json
+    return json.dumps(str(s))
+
+
+def w_cells(items):
+    return '(' + ' '.join('na' if is_na(v) else atom(eq_atom(v)) for v in items) + ')'
+
+
 def w_idx(ix):
     return f'(ix {atom(tok(ix.name))} {atom(ix.values.dtype)} {type(ix).__name__} {w_cells(arr_items(ix.values))})'
 
@@ -851,26 +857,30 @@ def hash_str(s):
 
 
 def model_lines(c):
-    try:
-        if c['k'] == 'exh':
-            frames = [build_frame(s) for s in exh_frames(c['alphabet'])]
-            ws = [w_frame(f) for f in frames]
-            o = c['opt']
-            lines = []
-            for i in range(0, len(ws), 4):
-                for j in range(len(ws)):
-                    lines.append(f'equals.frame {ws[i]} {ws[j]} (o {o[0]} {o[1]} {o[2]} {o[3]})')
-            return lines
-        kind = c['kind']
-        op, w = WIRE[kind]
-        objs = [w(build(kind, s)) for s in c['specs']]
-        pairs = [(0, 1)] if c['k'] == 'pair' else [(0, 1), (1, 2), (0, 2)]
-        lines = [f'equals.{op}.all {objs[i]} {objs[j]}' for i, j in pairs]
-        if c.get('he') and kind in ('series', 'frame'):
-            lines.append(f'equals.he.{op} {objs[0]} {objs[1]}')
+    if c['k'] == 'exh':
+        frames = [build_frame(s) for s in exh_frames(c['alphabet'])]
+        ws = [w_frame(f) for f in frames]
+        o = c['opt']
+        lines = []
+        for i in range(0, len(ws), 4):
+            for j in range(len(ws)):
+                lines.append(f'equals.frame {ws[i]} {ws[j]} (o {o[0]} {o[1]} {o[2]} {o[3]})')
         return lines
+    kind = c['kind']
+    op, w = WIRE[kind]
+    try:
+        built = [build(kind, s) for s in c['specs']]
     except Exception:
-        return []  # a spec that cannot be built is reported by evaluate
+        return []  # a spec that cannot be built: evaluate counts it (unbuildable_spec)
+    objs = [w(x) for x in built]   # an encoding error must surface (check.py reports it), never silence the model
+    pairs = [(0, 1)] if c['k'] == 'pair' else [(0, 1), (1, 2), (0, 2)]
+    lines = [f'equals.{op}.all {objs[i]} {objs[j]}' for i, j in pairs]
+    if c.get('he') and kind in ('series', 'frame'):
+        lines.append(f'equals.he.{op} {objs[0]} {objs[1]}')
+    return lines
+
+
+MODEL_OFF = False   # set by check.py when the driver cannot be built
 
 
 def parse_bits(ans):
@@ -946,8 +956,6 @@ def eval_pair(ctx, c, kind, a, b, A, B, bits, label):
     infos = [values_path_info(x, y) for x, y in zip(frames_of(kind, a), frames_of(kind, b))] if kind in ('frame', 'bus') else []
     res = []
     bad = {}  # (category, finding hint) -> list of opts
-    zero_cols = kind in ('frame', 'bus') and any(x.shape == y.shape and x.shape[1] == 0
-                                                 for x, y in zip(frames_of(kind, a), frames_of(kind, b)))
     for k, (o, kw) in enumerate(zip(OPTS, OPT_KW)):
         exp = ref(A, B, o)
         try:
@@ -955,8 +963,7 @@ def eval_pair(ctx, c, kind, a, b, A, B, bits, label):
             r2 = b.equals(a, **kw)
         except Exception as ex:
             res.append(None)
-            bad.setdefault(('oracle', f'{label}: equals raises {type(ex).__name__}: {ex} (reference {exp})',
-                            'zero-columns' if zero_cols else None), []).append(o)
+            bad.setdefault(('oracle', f'{label}: equals raises {type(ex).__name__}: {ex} (reference {exp})', None), []).append(o)
             continue
         res.append(r1)
         hint = values_path_hint(infos, o, exp)
@@ -983,6 +990,8 @@ def evaluate(ctx, c, outs):
     fails = []
     ctx.count(f'kind_{kind}')
     ctx.count(f'{c["k"]}s')
+    if kind == 'frame' and any(len(sp['cols']) == 0 for sp in c['specs']):
+        ctx.count('zero_column_frames')
     for m in c['mut']:
         ctx.count(f'mut_{kind}_{m}')
     try:
@@ -996,6 +1005,9 @@ def evaluate(ctx, c, outs):
     model = None
     if outs:
         model = [parse_bits(x) for x in outs[:len(pairs)]]
+        ctx.count('model_compared')
+    elif not MODEL_OFF:
+        fails.append(Failure('corr', f'{kind}: no model answer for a buildable case (model_lines produced nothing)', c))
     results = {}
     for idx, (i, j) in enumerate(pairs):
         f, res = eval_pair(ctx, c, kind, objs[i], objs[j], conts[i], conts[j], model[idx] if model else None, f'pair({i},{j})')
@@ -1016,9 +1028,7 @@ def evaluate(ctx, c, outs):
         try:
             rc = a.equals(copy0, **kw)
         except Exception as ex:
-            zc = kind in ('frame', 'bus') and any(x.shape[1] == 0 for x in frames_of(kind, a))
-            fails.append(Failure('oracle', f'{kind}: a.equals(copy of a) raises {type(ex).__name__}: {ex}', c,
-                                 detail={'hint': 'zero-columns' if zc else None}))
+            fails.append(Failure('oracle', f'{kind}: a.equals(copy of a) raises {type(ex).__name__}: {ex}', c))
             break
         if bool(rc) != exp:
             fails.append(Failure('oracle', f'{kind}: a.equals(copy of a) = {rc}, reference {exp} for {kw}', c))
@@ -1049,8 +1059,7 @@ def eval_he(ctx, c, kind, a, b, A, B, out):
     try:
         eq, ne, eq_r = a == b, a != b, b == a
     except Exception as ex:
-        zc = kind == 'frame' and a.shape == b.shape and a.shape[1] == 0
-        return [Failure('oracle', f'{kind}HE: == raises {type(ex).__name__}: {ex}', c, detail={'hint': 'zero-columns' if zc else None})]
+        return [Failure('oracle', f'{kind}HE: == raises {type(ex).__name__}: {ex}', c)]
     if type(eq) is not bool or type(ne) is not bool:
         fails.append(Failure('oracle', f'{kind}HE: == / != do not return plain bools ({type(eq).__name__}, {type(ne).__name__})', c))
         return fails
@@ -1074,10 +1083,11 @@ def eval_he(ctx, c, kind, a, b, A, B, out):
     for (st, h), x, nm in zip(hs, (a, b), 'ab'):
         if st == 'err':
             ctx.count('he_hash_raises')
-            fails.append(Failure('oracle', f'hash({kind}HE) raises TypeError: {h}', c,
-                                 detail={'hint': 'hash-hierarchy' if has_hier(x, kind) else None}))
+            fails.append(Failure('oracle', f'hash({kind}HE) raises TypeError: {h}', c))
     if hs[0][0] == 'ok' and hs[1][0] == 'ok':
         ctx.count('he_hash_ok')
+        if has_hier(a, kind) or has_hier(b, kind):
+            ctx.count('he_hash_ok_hierarchical_axis')
         nanlab = has_nan_label(a, kind) and has_nan_label(b, kind)
         if eq and hs[0][1] != hs[1][1]:
             fails.append(Failure('oracle', f'{kind}HE: a == b but hash(a) != hash(b)', c,
@@ -1101,6 +1111,10 @@ def eval_he(ctx, c, kind, a, b, A, B, out):
             for ms, (st, _), x in ((m_sa, hs[0], a), (m_sb, hs[1], b)):
                 if (ms == 'ok') != (st == 'ok'):
                     fails.append(Failure('corr', f'{kind}HE: model hash {ms} vs real {st}', c))
+            # model: equal hashed label tuples => equal hashes (NaN / NaT labels hash by identity: known finding)
+            if m_same == '1' and hs[0][0] == 'ok' and hs[1][0] == 'ok' and hs[0][1] != hs[1][1] \
+                    and not (has_nan_label(a, kind) and has_nan_label(b, kind)):
+                fails.append(Failure('corr', f'{kind}HE: the model hashes equal label tuples, the real hashes differ', c))
     return fails
 
 
@@ -1146,12 +1160,8 @@ def eval_exh(ctx, c, outs):
 def classify(f):
     d = f.detail if isinstance(f.detail, dict) else {}
     hint = d.get('hint')
-    if hint == 'hash-hierarchy':
-        return 'F9-he-hash-hierarchy'
     if hint == 'nan-label-hash':
         return 'C10-nan-label-hash'
     if hint == 'values-path-coercion':
         return 'C10-values-path-coercion'
-    if hint == 'zero-columns':
-        return 'C10-equals-zero-columns'
     return None
